@@ -453,6 +453,33 @@ example : ∃ i i', 2 ≤ i ∧ i ≤ i' ∧
       norm_num)
   exact ⟨i, i', h2, hle, h⟩
 
+/-- `resolve_within_prec` is the provable PART of "solving again gives results within the precision" (it carries the
+    contractivity hypothesis).  The FULL statement (no hypothesis on how the results evolve): whenever the first solve of a fresh unit ends quietly,
+    a second solve returns a result within the precision of the first -/
+def ResolveFull : Prop :=
+  ∀ (x : ℕ → List ℝ) (n : ℕ), (∀ k, (x k).length = n) → 0 < n → ∀ (p : ℝ) (m m' : ℕ),
+    (SolveGen.solve (orbitStep x) m p (Carried.fresh 0)).warned = false →
+    ∀ j, j < n →
+      |(x (SolveGen.solve (orbitStep x) m' p (SolveGen.solve (orbitStep x) m p (Carried.fresh 0)).carried).carried.st).getD j 0
+          - (x (SolveGen.solve (orbitStep x) m p (Carried.fresh 0)).carried.st).getD j 0|
+        ≤ |(x ((SolveGen.solve (orbitStep x) m p (Carried.fresh 0)).carried.st - 1)).getD j 0| * p
+
+/-- results that rest at 1 for two iterations and then move to 5 (a model that is not contractive) -/
+noncomputable def jumping (k : ℕ) : List ℝ := if k ≤ 2 then [1] else [5]
+
+/-- **resolve_full_false** — the full statement is false of the model (and of the code: the same vectors played through the
+    real `Unit.solve` by the harness, scripted corpus `corpus-jump`): the first solve ends quietly at 1, the second one
+    quietly at 5.  The solve loop cannot do better: it sees two equal consecutive iterates. -/
+theorem resolve_full_false : ¬ ResolveFull := by
+  intro h
+  have h1 : (SolveGen.solve (orbitStep jumping) 3 (1 / 10) (Carried.fresh 0)).warned = false := by
+    rw [solve_eq]
+    simp [Solve.solve, Carried.fresh, loop, orbitStep, jumping, test, pairs, quant, within_decide]
+  have := h jumping 1 (fun k => by unfold jumping; split <;> rfl) (by norm_num) (1 / 10) 3 3 h1 0 (by norm_num)
+  simp only [solve_eq] at this
+  simp [Solve.solve, Carried.fresh, loop, orbitStep, jumping, test, pairs, quant, within_decide] at this
+  norm_num at this
+
 /-! ### aborted by an exception -/
 
 /-- **abort_leaves_usable** — a solve that raised after `k` complete iterations leaves the unit in a state that an
